@@ -170,6 +170,12 @@ func run(c *core.Ctx) {
 	for _, m := range fullBig {
 		each("models=1/big", []ModelSpec{m})
 	}
+	for _, glb := range []bool{false, true} {
+		if c.Next() {
+			k.uriSpelling(glb)
+		}
+	}
+	c.Bound("uri_spelling", fmt.Sprintf("image URIs %q: the same three-model scene stores the same numbers of textures, images, samplers and materials for each", uriMenu))
 	// one mesh whose payload exceeds 32 MiB (both containers)
 	each("models=1/huge", []ModelSpec{{Mesh: "H", Mat: "-", TRS: "-", Inst: 0}})
 	c.Bound("menu.meshes.huge", fmt.Sprintf("H: %d positions (%d bytes of payload)", hugeN, hugeN*12))
@@ -297,6 +303,10 @@ func replay(c *core.Ctx) {
 	var cs Case
 	if err := json.Unmarshal(c.Replay, &cs); err != nil {
 		c.HarnessError("bad case: %v", err)
+		return
+	}
+	if len(cs.SaveSeq) == 1 && cs.SaveSeq[0] == -2 {
+		checker{c}.uriSpelling(cs.GLB)
 		return
 	}
 	if len(cs.SaveSeq) == 1 && cs.SaveSeq[0] == -1 {
